@@ -101,5 +101,6 @@ pub fn behaviour() -> Behaviour {
         thorough: 20000,
         batch: 25,
         assumptions: &["m_into_* methods add a target-specific offset so that method identity is observable"],
+        miri_units: 0,
     }
 }
